@@ -284,6 +284,7 @@ def well_formed(text):
 # ---------------------------------------------------------------- xmlin
 
 TMP = tempfile.mkdtemp(prefix='pyx12_xmlin_')
+__import__('atexit').register(lambda: __import__('shutil').rmtree(TMP, ignore_errors=True))
 
 
 def parse_tree(xml_text):
